@@ -56,7 +56,7 @@ class SimBackend(TextQueryBackend):
     """Base variant: NOT as token, no in-expressions, exists/not exists via NOT."""
 
     name: ClassVar[str] = "sim"
-    formats: ClassVar[dict[str, str]] = {"default": "plain", "alt": "wrapped", "st": "state"}
+    formats: ClassVar[dict[str, str]] = {"default": "plain", "alt": "wrapped", "st": "state", "doc": "one document"}
 
     precedence = TextQueryBackend.precedence
     group_expression: ClassVar[str] = "({expr})"
@@ -200,6 +200,8 @@ class SimBackend(TextQueryBackend):
                 if self._templates_swapped():
                     self.probe_swapped_raise += 1
                 msg = f"injected fault at {stage}#{n} for rule {title}"
+                if f.get("bare") and f["exc"] == "NotImplementedError":
+                    raise NotImplementedError  # the idiomatic argument-less form
                 if f["exc"] == "SigmaConversionError":
                     raise sx.SigmaConversionError(self._cur_rule, self._cur_rule.source, msg)
                 raise EXC[f["exc"]](msg)
@@ -279,11 +281,19 @@ class SimBackend(TextQueryBackend):
         p = self.last_processing_pipeline
         applied = sorted(p.applied_ids)  # generated identifiers too: they are documented as deterministic
         fmap = sorted((str(k), sorted(map(str, v))) for k, v in p.field_mappings.items())
+        fna = sorted((str(k), sorted(map(str, v))) for k, v in p.field_name_applied_ids.items() if v)
         return (f"ST(index={state.processing_state.get('index', 'none')} applied={applied} "
-                f"fieldmap={fmap})[{query}]")
+                f"fieldmap={fmap}" + (f" fieldapplied={fna}" if fna else "") + f")[{query}]")
 
     def finalize_output_st(self, queries: list[Any]) -> Any:
         return queries
+
+    # a format whose output is one document (a string) instead of a list of queries
+    def finalize_query_doc(self, rule: Any, query: Any, index: int, state: ConversionState) -> Any:
+        return query
+
+    def finalize_output_doc(self, queries: list[Any]) -> Any:
+        return " ## ".join(str(q) for q in queries)
 
 
 class SimBackendNE(SimBackend):
